@@ -84,14 +84,14 @@ def _subs(tier):
             # case split: burst or not for the 2nd/3rd request, first order fits or not
             out += [s for s in split_by_order(sub, [('d1', '0'), ('d2', '0'), (f'need{assign[0]}', 'cap')])
                     if not s['name'].split('#')[1][0] == 'l' and not s['name'].split('#')[1][1] == 'l']
-    # targeted class: a burst of three orders behind a maintainer that the first order fills completely; the two others
-    # (different targets / tags) both become startable in the same scan when it finishes
+    # targeted class: two orders arrive while the first order, which fills the maintainer completely, is in progress; both
+    # (different targets / tags) become startable in the same scan when it finishes
     params = [['cap', 0, T]]
     for p in (0, 2, 1):
         params += [[f'dur{p}', 0, T], [f'need{p}', 0, T], [f'cost{p}', 1, T]]
     params += [['d1', 0, T], ['d2', 0, T]]
-    out.append({'name': 'req-021-burst-behind-a-full-maintainer', 'shape': {'assign': [0, 2, 1], 'nested': False}, 'params': params,
-                'pre': ['d1 == 0', 'd2 == 0', 'need0 == cap', 'need0 >= 1', 'dur0 >= 1', 'need2 + need1 <= cap']})
+    out.append({'name': 'req-021-two-queued-behind-a-full-maintainer', 'shape': {'assign': [0, 2, 1], 'nested': False}, 'params': params,
+                'pre': ['need0 == cap', 'need0 >= 1', 'd1 + d2 < dur0', 'need2 + need1 <= cap']})
     return out
 
 
@@ -110,7 +110,7 @@ def bounds_text(tier):
 
 def required_goals(tier):
     return ['duplicate_rejected', 'order_waited_for_capacity', 'order_waited_for_target', 'overtaking', 'two_active',
-            'burst_same_instant', 'zero_duration', 'never_fits', 'finished', 'request_from_hook', 'request_from_end_hook']
+            'two_selected_in_one_scan', 'burst_same_instant', 'zero_duration', 'never_fits', 'finished', 'request_from_hook', 'request_from_end_hook']
 
 
 def signature(f):
@@ -145,6 +145,7 @@ def run(shape, args, ctx):
         """Reference: scan the queue in request order, select what fits and whose target is free."""
         i = 0
         skipped = False
+        picked = 0
         while i < len(queue):
             o = queue[i]
             busy = any(a.target == o.target for a in active)
@@ -155,6 +156,9 @@ def run(shape, args, ctx):
                 st['util'] = st['util'] + o.need
                 o.selected_at = now()
                 o.state = 'selected'
+                picked += 1
+                if picked >= 2:
+                    ctx.goal('two_selected_in_one_scan')
                 if skipped:
                     ctx.goal('overtaking')
             else:
